@@ -66,6 +66,13 @@ def tree_hash(repo=REPO):
     return h.hexdigest()[:20]
 
 
+def _tag():
+    """developer tools that analyse several scratch copies at once (bin/vselftest-par) give each worker its own cargo target
+    directory and lock; the registered checks never set this"""
+    t = os.environ.get("VERIF_TARGET_TAG", "")
+    return ("." + t) if t else ""
+
+
 class BuildError(Exception):
     pass
 
@@ -93,7 +100,7 @@ def ensure_facts(config, thash=None, repo=REPO, verbose=False):
     if os.path.exists(stamp):
         return out
     os.makedirs(os.path.join(CACHE, "locks"), exist_ok=True)
-    lock = open(os.path.join(CACHE, "locks", config + ".lock"), "w")
+    lock = open(os.path.join(CACHE, "locks", config + _tag() + ".lock"), "w")
     fcntl.flock(lock, fcntl.LOCK_EX)
     try:
         if os.path.exists(stamp):
@@ -103,7 +110,7 @@ def ensure_facts(config, thash=None, repo=REPO, verbose=False):
             shutil.rmtree(out)
         os.makedirs(out)
         cargo_args, extra_flags, members = CONFIGS[config]
-        target = os.path.join(CACHE, "target-" + config)
+        target = os.path.join(CACHE, "target-" + config + _tag())
         # cargo's freshness cache would skip the wrapper: forget the member crates
         fp = os.path.join(target, "debug", ".fingerprint")
         if os.path.isdir(fp):
@@ -145,7 +152,8 @@ def ensure_facts(config, thash=None, repo=REPO, verbose=False):
             fh.write("%.1f\n" % (time.time() - t0))
         if verbose:
             print("facts[%s] built in %.1fs -> %s" % (config, time.time() - t0, out), file=sys.stderr)
-        _gc(thash)
+        if not os.environ.get("VERIF_NO_GC"):
+            _gc(thash)
         return out
     finally:
         fcntl.flock(lock, fcntl.LOCK_UN)
